@@ -79,6 +79,9 @@ def replay (j : Json) : R Verdict := do
           pf := ("C17", s!"op {i}: mutation with probability 1 left a boolean / enum / variant / optional / map size unchanged") :: pf
         if !(resizeLocal mp s cross out) then
           pf := ("C13", s!"op {i}: a resizable map was not resized by exactly one fresh/removed key (mutation probability class {repr mp})") :: pf
+    match (fieldD op "jsonPanic").getStr?.toOption with
+    | some m => pf := ("C15", s!"op {i}: the value produced by mutation cannot be written as JSON (Value::to_json panics: {m}); a run crashes when it hands this individual to the objective function") :: pf
+    | none => pure ()
     -- adaptive parameters of in-run records (C14): probabilities in [0,1], scale positive and finite
     if (fieldD op "inRun").getBool?.toOption == some true then
       let one : F64 := .fin 4607182418800017408
